@@ -148,19 +148,87 @@ def write_if_changed(path, text):
 
 
 def refresh_makefile():
+    """Keeps a _CoqProject for tooling (coq_makefile / IDEs); the build itself
+    is done by build() below, which is safe against concurrent runs."""
     files = coq_project_files()
     proj = "-Q . SV\n-arg -w -arg -all\n" + "\n".join(files) + "\n"
-    changed = write_if_changed(os.path.join(COQ, "_CoqProject"), proj)
-    if changed or not os.path.exists(os.path.join(COQ, "Makefile")):
-        rc, out = sh("coq_makefile -f _CoqProject -o Makefile", cwd=COQ, timeout=120)
-        if rc != 0:
-            raise SystemExit("coq_makefile failed:\n" + out)
+    write_if_changed(os.path.join(COQ, "_CoqProject"), proj)
+
+
+def _coqdep(files):
+    rc, out = sh(["coqdep", "-Q", ".", "SV"] + files, cwd=COQ, timeout=300)
+    deps = {}
+    for line in out.splitlines():
+        if ":" not in line or ".vo" not in line:
+            continue
+        lhs, rhs = line.split(":", 1)
+        tgt = [t for t in lhs.split() if t.endswith(".vo")]
+        if not tgt:
+            continue
+        src = tgt[0][:-1]
+        deps[src] = [d[:-1] for d in rhs.split() if d.endswith(".vo")]
+    return deps
+
+
+def build(targets, timeout=1500):
+    """Full .vo build (coqc, never -vos) of the given .v files (relative to
+    coq/) and everything they depend on; out-of-date files only; parallel;
+    serialised across processes with a lock file.  targets=[] builds all."""
+    import fcntl
+    from concurrent.futures import ThreadPoolExecutor
+    refresh_makefile()
+    files = coq_project_files()
+    t_end = time.time() + timeout
+    with open(os.path.join(COQ, ".buildlock"), "w") as lk:
+        fcntl.flock(lk, fcntl.LOCK_EX)
+        deps = _coqdep(files)
+        want = set()
+
+        def add(f):
+            if f in want:
+                return
+            want.add(f)
+            for d in deps.get(f, []):
+                add(d)
+        for t in (targets or files):
+            add(t)
+        done, log = set(), []
+        rebuilt = set()
+
+        def stale(f):
+            vo = os.path.join(COQ, f + "o")
+            if not os.path.exists(vo):
+                return True
+            m = os.path.getmtime(vo)
+            if os.path.getmtime(os.path.join(COQ, f)) > m:
+                return True
+            return any(d in rebuilt or os.path.getmtime(os.path.join(COQ, d + "o")) > m
+                       for d in deps.get(f, []))
+
+        def comp(f):
+            return f, sh(["coqc", "-w", "-all", "-Q", ".", "SV", f], cwd=COQ,
+                         timeout=max(10, t_end - time.time()))
+        while len(done) < len(want):
+            ready = [f for f in want - done if all(d in done for d in deps.get(f, []) if d in want)]
+            if not ready:
+                return 1, "dependency cycle among " + ", ".join(sorted(want - done))
+            todo = [f for f in ready if stale(f)]
+            for f in ready:
+                if f not in todo:
+                    done.add(f)
+            if todo:
+                with ThreadPoolExecutor(max_workers=NCPU) as ex:
+                    for f, (rc, out) in ex.map(comp, todo):
+                        if rc != 0:
+                            return rc, "coqc %s failed:\n%s" % (f, out[-5000:])
+                        rebuilt.add(f)
+                        done.add(f)
+                        log.append(f)
+        return 0, "built: " + (" ".join(log) if log else "(up to date)")
 
 
 def make(targets, timeout=1500):
-    refresh_makefile()
-    cmd = "make -j%d %s" % (NCPU, " ".join(targets))
-    return sh(cmd, cwd=COQ, timeout=timeout)
+    return build([t[:-1] if t.endswith(".vo") else t for t in targets], timeout=timeout)
 
 
 def coqc(relpath, timeout=600):
@@ -255,9 +323,9 @@ class Check(object):
         Returns True when every obligation was discharged."""
         self.obligations = list(expected)
         rel = "%s/%s" % (self.pid, props)
-        self.checker_cmd = ("cd /verif/coq && make %so && coqc -Q . SV %s   "
-                            "(full .vo build; Print Assumptions under every theorem)"
-                            % (rel, rel))
+        self.checker_cmd = ("cd /verif && ./check setup && cd coq && coqc -Q . SV %s   "
+                            "(full .vo build of the file and its dependencies with coqc; "
+                            "Print Assumptions under every theorem)" % rel)
         # forbidden constructs anywhere in the development
         bad = []
         for f in coq_project_files():
